@@ -1,1 +1,63 @@
-From PC Require Import Model.Generic.
+(* C16 — string constraints (platform, extras) form a sound set algebra.
+   Model: Model/Generic.v (every class and operation, incl. the substring operators the code branches on).
+   Proved here: inversion (both readings) and the clause-level and conjunction-level meets/joins on the
+   == / != fragment.  The union-level distribution/de-duplication code (UnionConstraint.intersect/union) and the
+   containment/overlap answers are decided by correspondence (model = implementation, structurally, on every
+   generated pair) and by the oracle; not yet by theorems. *)
+From Coq Require Import List Bool String.
+From PC Require Import Base.Result Model.Generic Proofs.GenericProofs.
+Import ListNotations.
+
+(* full statement, kept visible *)
+Definition C16_full_statement : Prop :=
+  forall a b : gc,
+    (forall r, g_intersect a b = Ok r -> forall x, sat r x = sat a x && sat b x) /\
+    (forall r, g_union a b = Ok r -> forall x, sat r x = sat a x || sat b x) /\
+    (forall r, g_invert a = Ok r -> forall x, sat r x = negb (sat a x)).
+
+Theorem C16_invert_clause : forall a x, atom_sat (atom_invert a) x = negb (atom_sat a x).
+Proof. exact atom_invert_sat. Qed.
+Print Assumptions C16_invert_clause.
+Theorem C16_invert_clause_extras : forall a act, eqne a = true -> atom_xsat (atom_invert a) act = negb (atom_xsat a act).
+Proof. exact atom_invert_xsat. Qed.
+Print Assumptions C16_invert_clause_extras.
+Theorem C16_invert_conjunction : forall mx l x c,
+  g_invert (GS (SMulti mx l)) = Ok c -> sat c x = negb (sat (GS (SMulti mx l)) x).
+Proof. exact (fun mx l x => multi_invert_exact mx l x). Qed.
+Print Assumptions C16_invert_conjunction.
+Theorem C16x_invert_conjunction : forall mx l act, forallb eqne l = true ->
+  forall c, g_invert (GS (SMulti mx l)) = Ok c -> xsat c act = negb (xsat (GS (SMulti mx l)) act).
+Proof. exact multi_invert_exact_extras. Qed.
+Print Assumptions C16x_invert_conjunction.
+
+Theorem C16_intersect_clauses_partial : forall a b x,
+  ax a = false -> ax b = false -> eqne a = true -> eqne b = true ->
+  forall r, atom_intersect_atom a b = Ok r -> gs_sat r x = atom_sat a x && atom_sat b x.
+Proof. exact atom_intersect_exact. Qed.
+Print Assumptions C16_intersect_clauses_partial.
+Theorem C16_union_clauses_partial : forall a b x,
+  ax a = false -> ax b = false -> eqne a = true -> eqne b = true ->
+  forall r, atom_union_atom a b = Ok r -> sat r x = atom_sat a x || atom_sat b x.
+Proof. exact atom_union_exact. Qed.
+Print Assumptions C16_union_clauses_partial.
+Theorem C16_intersect_conjunction_clause_partial : forall l b x,
+  all_ne l = true -> ax b = false -> eqne b = true ->
+  forall r, multi_intersect_atom false l b = Ok r ->
+  gs_sat r x = forallb (fun a => atom_sat a x) l && atom_sat b x.
+Proof. exact multi_intersect_atom_exact. Qed.
+Print Assumptions C16_intersect_conjunction_clause_partial.
+Theorem C16_intersect_conjunctions_partial : forall l l' x r,
+  multi_intersect_multi false l l' = Ok r ->
+  gs_sat r x = forallb (fun a => atom_sat a x) l && forallb (fun a => atom_sat a x) l'.
+Proof. exact (fun l l' x => multi_intersect_multi_exact l l' x). Qed.
+Print Assumptions C16_intersect_conjunctions_partial.
+
+(* flags: a result reported universal / empty admits every / no value — by definition of the two classes *)
+Theorem C16_flags : forall c x, (g_is_any c = true -> sat c x = true) /\ (g_is_empty c = true -> sat c x = false).
+Proof. intros [[| |a|mx l]|l] x; split; intros H; try discriminate; reflexivity. Qed.
+Print Assumptions C16_flags.
+
+Example C16_example :
+  exists a b r, parse_g false "!=linux, !=win32" = Ok a /\ parse_g false "darwin || linux" = Ok b /\
+    g_intersect a b = Ok r /\ g_str r = "darwin"%string.
+Proof. do 3 eexists. repeat split; vm_compute; reflexivity. Qed.
